@@ -417,6 +417,10 @@ impl HintingInstance {
                 if matches!(path_style, PathStyle::HarfBuzz) {
                     return Err(DrawError::HarfBuzzHintingUnsupported);
                 }
+                if !instance.is_compatible(outline) {
+                    // The instance was configured for a different font.
+                    return Err(DrawError::NoSources);
+                }
                 super::with_glyf_memory(outline, Hinting::Embedded, memory, |buf| {
                     let scaled_outline = FreeTypeScaler::hinted(
                         glyf,
